@@ -16,12 +16,27 @@ func queryMenu(w *mc.World, r *mc.Req) []mc.Outcome {
 	if strings.HasPrefix(r.Subject, "_QE_") {
 		f := struct{ name string }{"test.q"}
 		q := mc.ParseQuery(r.Payload)
+		// untruthful or missing answers: the resource is not expected to converge any more
+		lie := func(o mc.Outcome) mc.Outcome {
+			d, e := o.Data, o.Err
+			mark := func() {
+				if r := w.Svc.Res[f.name+"?"+q]; r != nil {
+					r.NoConv = true
+				}
+			}
+			if d != nil {
+				o.Data = func() []byte { mark(); return d() }
+			} else if e != nil {
+				o.Data = func() []byte { mark(); return nil }
+			}
+			return o
+		}
 		return []mc.Outcome{
 			{Name: "model", Data: func() []byte { return w.Svc.QueryAnswer(f.name, q, "model") }},
 			{Name: "events", Data: func() []byte { return w.Svc.QueryAnswer(f.name, q, "events") }},
-			{Name: "empty", Data: func() []byte { return w.Svc.QueryAnswer(f.name, q, "empty") }},
-			mc.ResErr("system.internalError"), mc.ResErr("system.notFound"), mc.Timeout(),
-			mc.Raw("noevents", `{"result":{}}`),
+			lie(mc.Outcome{Name: "empty", Data: func() []byte { return w.Svc.QueryAnswer(f.name, q, "empty") }}),
+			lie(mc.ResErr("system.internalError")), lie(mc.ResErr("system.notFound")), lie(mc.Timeout()),
+			lie(mc.Raw("noevents", `{"result":{}}`)),
 		}
 	}
 	return nil
